@@ -269,8 +269,11 @@ def judge(rec: Recorder, provider_idx: int, script: t.Sequence[tuple], api: str,
         return exp
     if exp["malformed_results"]:
         # only the fail-closed part is judged
-        if got_requests and 0 not in [i for i, r in enumerate(RESULT_VECTORS[script[0][2]][:2]) if r == ACC]:
-            bad("request-on-unaccepted-context", "Request sent although context 0 was not accepted")
+        offered = next((m["contexts"] for m in sent if m["ptype"] == rrpc.BIND), [])
+        vec = RESULT_VECTORS[script[0][2]]
+        accepted_ids = [c[0] for i, c in enumerate(offered) if i < len(vec) and vec[i] == ACC]
+        if got_requests and got_requests[0]["ctx_id"] not in accepted_ids:
+            bad("request-on-unaccepted-context", f"Request sent on context {got_requests[0]['ctx_id']} although only {accepted_ids} were accepted")
         if out[0] == "ok":
             bad("error-swallowed", "API returned a value from a scripted conversation that never answers")
         return exp
@@ -279,7 +282,8 @@ def judge(rec: Recorder, provider_idx: int, script: t.Sequence[tuple], api: str,
         if len(got_handshake) > len(exp["sent"]):
             mech = "pdu-after-failure" if exp["error"] and not exp["request"] else "extra-handshake-leg"
         bad(mech, f"handshake PDUs (type, token) {[(n, (tk or b'')[:8]) for n, tk in got_handshake]} expected {[(n, tk[:8]) for n, tk in exp['sent']]}")
-    step_inputs = ctx.step_inputs()
+    step_inputs = [x or None for x in ctx.step_inputs()]  # None and b"" both mean "no token"
+    exp["step_inputs"] = [x or None for x in exp["step_inputs"]]
     rec.count("step_logs_compared")
     if step_inputs != exp["step_inputs"]:
         bad("step-inputs", f"provider.step inputs {step_inputs} expected {exp['step_inputs']}")
@@ -291,8 +295,12 @@ def judge(rec: Recorder, provider_idx: int, script: t.Sequence[tuple], api: str,
             bad("request-missing", f"{len(got_requests)} Request PDUs, expected exactly one")
         else:
             rq = got_requests[0]
-            if rq["ctx_id"] != 0 or rq["opnum"] != 0:
-                bad("request-context", f"Request on context {rq['ctx_id']} opnum {rq['opnum']}")
+            # the context the Request names must be one the scripted ack accepted (whatever number the client gave it)
+            offered = next((m["contexts"] for m in sent if m["ptype"] == rrpc.BIND), [])
+            vec = RESULT_VECTORS[script[0][2]] if script and script[0][0] == "ack" else ()
+            accepted_ids = [c[0] for i, c in enumerate(offered) if i < len(vec) and vec[i] == ACC]
+            if rq["ctx_id"] not in accepted_ids or rq["opnum"] != 0:
+                bad("request-context", f"Request on context {rq['ctx_id']} opnum {rq['opnum']} (accepted context ids {accepted_ids})")
             wraps = [e for e in ctx.log if e[0] == "wrap"]
             if len(wraps) != 1:
                 bad("request-not-sealed", f"{len(wraps)} wrap calls")
